@@ -101,7 +101,10 @@ func ReadRequest(r *bufio.Reader) (*Request, error) {
 	}
 
 	// 读取Body
-	cl := req.Header.Int(FieldContentLength)
+	cl, err := req.Header.contentLength()
+	if err != nil {
+		return nil, err
+	}
 	if cl > 0 {
 		// 读取 n 字节的字串Body
 		body := make([]byte, cl)
